@@ -371,8 +371,14 @@ def check_single(rec, spec, data, mask, cov, tag):
                       f'all boxes are excluded by the documented rule but no ValueError; {desc}', case)
             return
         try:
-            mesh = np.array(b.background_mesh, float)
-            rmesh = np.array(b.background_rms_mesh, float)
+            # both read orders of the two lazily evaluated meshes are exercised (the selective filter of the
+            # rms mesh needs the background statistics)
+            if (int(spec['fs'][0]) + int(spec['p']) + int(bool(spec['bn']))) % 2:
+                rmesh = np.array(b.background_rms_mesh, float)
+                mesh = np.array(b.background_mesh, float)
+            else:
+                mesh = np.array(b.background_mesh, float)
+                rmesh = np.array(b.background_rms_mesh, float)
             bg = np.array(b.background, float)
             br = np.array(b.background_rms, float)
             npm = np.array(b.npixels_mesh)
@@ -493,13 +499,13 @@ def check_relation(rec, spec, data, mask, cov, rel, par, tag):
     try:
         base = _maps(spec, data, mask, cov)
     except ValueError:
-        rec.case(('rel', rel, tag), nontrivial=False, contract=rel)
+        rec.case(('rel', rel, par, tag), nontrivial=False, contract=rel)
         return
     except Exception as exc:  # noqa: BLE001
-        rec.case(('rel', rel, tag), nontrivial=True, contract=rel)
+        rec.case(('rel', rel, par, tag), nontrivial=True, contract=rel)
         rec.check(False, 'construct-raises', f'{type(exc).__name__}: {exc}; {desc}', case)
         return
-    rec.case(('rel', rel, tag), nontrivial=True, contract=rel)
+    rec.case(('rel', rel, par, tag), nontrivial=True, contract=rel)
     try:
         if rel == 'mask-blind':
             rl = np.random.default_rng(par)
